@@ -8,7 +8,7 @@ from sim.seams import Env
 PROPERTY = "C08"
 LEVEL = "exploration"
 SCENARIOS = {"flat": 2, "hierarchy": 3, "percpu": 2}
-TIERS = {"quick": {"runs": 8000, "chunk": 30}, "thorough": {"runs": 240000, "chunk": 150}}
+TIERS = {"quick": {"runs": 8000, "chunk": 30}, "thorough": {"runs": 50000000, "wall_s": 600, "chunk": 150, "recheck": 16}}
 RULE = ("one run = a tape-generated class hierarchy (program, 0-2 base classes - in "
         "'hierarchy' possibly overriding a name with another format - and 0-3 sub-program "
         "instances of 1-2 classes) declaring 1-12 variables with formats B H I Q b h i q x "
